@@ -224,7 +224,7 @@ def _sz(q, t):
 
 
 EVALS = [
-    Ev('beat', BEAT.evaluate, _b_beat, _sz([(0, 0), (1, 1), (0, 2), (2, 0), (2, 1)], [(0, 0), (1, 1), (2, 2), (0, 2), (2, 0), (2, 1), (1, 2)]),
+    Ev('beat', BEAT.evaluate, _b_beat, _sz([(0, 0), (1, 1), (0, 2), (2, 0), (2, 1)], [(0, 0), (1, 1), (0, 2), (2, 0), (2, 1), (1, 2)]),
        ['beat.evaluate', 'beat.trim_beats', 'util.filter_kwargs'], timeout_s=1800),
     Ev('onset', ONSET.evaluate, _b_beat, _sz([(0, 0), (1, 1), (2, 2), (0, 1)], [(0, 0), (1, 1), (2, 2), (0, 1), (3, 3)]), ['onset.evaluate']),
     Ev('segment', SEG.evaluate, _b_segment, _sz([(1, 1, 1.0), (0, 1, 1.0), (1, 0, 1.0)], [(1, 1, 1.0), (0, 1, 1.0), (1, 0, 1.0), (2, 1, 1.0), (1, 2, 1.0), (1, 1, 1.5, 'free ref start')]),
@@ -236,7 +236,7 @@ EVALS = [
        exact_floats=False, timeout_s=1800),
     Ev('multipitch', MP.evaluate, _b_multipitch, _sz([(1, 1), (2, 1), (0, 1)], [(1, 1), (2, 1), (0, 1), (2, 2)]), ['multipitch.evaluate'],
        exact_floats=False, timeout_s=1800),
-    Ev('transcription', TR.evaluate, _b_transcription, _sz([(0, 1), (1, 1), (1, 2)], [(0, 1), (1, 1), (1, 2), (2, 2)]), ['transcription.evaluate'],
+    Ev('transcription', TR.evaluate, _b_transcription, _sz([(0, 1), (1, 1), (1, 2)], [(0, 1), (1, 1), (1, 2), (2, 1)]), ['transcription.evaluate'],
        exact_floats=False, timeout_s=1800),
     Ev('tempo', TEMPO.evaluate, _b_tempo, _sz([(2, 2)], [(2, 2)]), ['tempo.evaluate']),
     Ev('key', _key_eval, _b_key, _sz([(8, 8)], [(len(T.KEY_STRINGS), len(T.KEY_STRINGS))]), ['key.evaluate']),
